@@ -147,6 +147,12 @@ PROPS["C18"] = A("cases are seeded sequences of user events (3 names, Lamport ti
     "Seeded exploration on the fake clock: per observed flush and coalescable name exactly the events with the highest Lamport time since the previous flush, in arrival order; events not marked coalescable and other kinds come out immediately and unchanged; nothing is held back for more than 2.5 s. Exact replay.",
     quick=(6000, 45), thorough=(300000, 900), engine="A replica simulator (coalescer stage only, fake clock)",
     real=["serf.coalesceLoop, memberEventCoalescer, userEventCoalescer (constructed through the verif-tagged exported constructors)"], simulated=["clock (synctest)", "event stream"])
+PROPS["C15"] = A("cases are seeded histories over 1-5 ghost members seen by one real observer: memberlist up/down/update notifications, leave/join intents with Lamport times around the recorded ones, force-leave with and without prune, push/pull left lists, rejoins, and fake-clock advances that land just before, on and after each deadline relative to the reap ticks; ReapInterval, ReconnectTimeout, TombstoneTimeout and a per-member ReconnectTimeoutOverride are drawn per run; distinct = distinct step-list hash; non-trivial = at least one stimulus",
+    "Seeded exploration on the fake clock. After every step Stats() failed/left/members equal the counts in Members(); at every advance the set of members removed is exactly those past their (per-member) timeout at a reap tick inside the advance, with exactly one reap event each; pruned members disappear. Exact replay.",
+    quick=(4000, 45), thorough=(200000, 900))
+PROPS["C16"] = A("as C15, with the event pipeline in all four configurations (snapshot on/off x member coalescing on/off), application channel sizes 1/8/64/4096 and a consumer that only drains at seeded points (so the snapshot tee drops when the channel is full); distinct = distinct step-list hash; non-trivial = at least one stimulus",
+    "Seeded exploration on the fake clock. The model sequence of each member's status changes is read from Members() after every step; the events the application receives for a member must be an in-order subsequence of it, and when the application channel was never full the last event received equals the latest change. Exact replay.",
+    quick=(3000, 45), thorough=(150000, 900))
 PROPS["C14"] = D("cases are seeded histories against a real Serf node whose snapshot lives on simfs: user events and queries delivered by gossip and push/pull, real joins (with/without ignoreOld) against a real peer holding events, fake-time advances around the 500 ms flush interval, and 1-3 restarts (crash: only bytes already handed to the OS survive; or clean shutdown) followed by old and new messages; distinct = distinct step-list hash; non-trivial = messages injected after a restart",
     "Seeded exploration; E and Q are read by the real recovery from the image the restart starts from; any user event with time <= E or query with time <= Q on the application channel after the restart is a violation. Exact replay.",
     quick=(2500, 60), thorough=(100000, 1200),
